@@ -2,6 +2,7 @@
    Property theorems only.  Models: Model/Persist.v (persist.py value codec, from_dict, the
    effect of json.dumps/json.loads), Model/BallotFile.v (BLT writer/parser at token level),
    Model/StvFile.v (STV writer/parser at character level); proofs: Proofs/Persist_proofs.v,
+   Proofs/PersistRejects_proofs.v (the repaired serialize_value and the rejection clause),
    Proofs/BallotFile_proofs.v, Proofs/StvFile_proofs.v.
    The persist theorems hold for EVERY environment [E] (Unicode identifier tables, Decimal
    parser, class table, importable callables): these are oracle arguments, not assumptions. *)
